@@ -1,6 +1,7 @@
 import BoltonsVerif.C03.Proofs
 import BoltonsVerif.C03.Micro
 import BoltonsVerif.C03.Readers
+import BoltonsVerif.C03.Callbacks
 import BoltonsVerif.Generated.C03_CacheLocks
 import BoltonsVerif.C02.Proofs
 /-
@@ -401,5 +402,72 @@ example : ∀ o, readerSys.protect o = true → WN 0 (readerSys.body o) := fun o
 example : ∀ o, toyProtected.protect o = true := fun _ => rfl
 example : ∀ o, WN 0 (toyProtected.body o) := by
   intro o s; simp only [toyBody]; split <;> intro _ <;> simp [WN]
+
+/-! ### C-level dict calls that call back into Python, and the keyword form of `update`
+
+`dict.__eq__` compares item by item and runs the values' (keys') Python-level `__eq__` in between: a program of one
+shared-state read per item (`Callbacks.eqBody`), not one step.  `update(E, **F)` is the positional part followed by
+the keyword items.  With every method body inside ONE lock region (the code as it is; re-established from the source
+by `all_state_methods_protected` / `public_methods_atomic`: `super().__eq__` counts as a reference to the state, the
+keyword loop's `setitem(k, F[k])` as a cache operation) the general theorem applies; the two ways of getting it wrong
+that round 5 seeded are refuted by explicit schedules. -/
+
+/-- `update(E, **kw)` IS `update(E followed by the keyword items)`: the keyword form adds no behaviour of its own to
+    the atomic step the linearised run is compared with -/
+theorem update_kw_is_concat {K V : Type} [DecidableEq K] [DecidableEq V] (c : C02.Cache K V) (l kw : List (K × V)) :
+    C02.step c (.update (.pairs l) kw) = C02.step c (.update (.pairs (l ++ kw)) []) := by
+  simp [C02.step, C02.Cache.update, C02.Cache.setAll, List.foldl_append]
+
+/-- run atomically (which is what the lock guarantees), the item-wise comparison with its callbacks changes nothing
+    and answers exactly the C02 model's `dict.__eq__` - the value the linearised run is compared with -/
+theorem itemwise_eq_atomic_meaning (o s : Callbacks.D) :
+    runProg (Callbacks.eqBody o) s = (s, C02.dictEq s o) :=
+  Prod.ext (Callbacks.eqBody_run_state o s) (Callbacks.eqBody_run o s)
+
+/-- comparisons and (keyword-form) updates, each wholly inside one lock region, are serializable under every schedule,
+    however many Python-level callbacks (= pre-emption points) the comparison contains -/
+theorem locked_callbacks_serializable (s0 : Callbacks.D) (progs : List (List Callbacks.Op))
+    (sch : List Tid) (c : Cfg Callbacks.D Callbacks.Op Callbacks.Out)
+    (hexec : (Cfg.init s0 progs).exec Callbacks.goodSys sch = some c) (hdone : c.complete = true) :
+    ∃ log : List (Tid × Callbacks.Op),
+      (∀ i p, progs[i]? = some p → opsOf i log = p) ∧
+      c.shared = serialState Callbacks.goodSys s0 log ∧
+      (∀ i t, c.threads[i]? = some t → t.outs = serialOuts Callbacks.goodSys s0 i log) ∧
+      c.owner = none :=
+  serializable Callbacks.goodSys s0 progs (fun _ => rfl) Callbacks.goodBody_wn sch c hexec hdone
+
+/-- seeded C03-14 in the model: `__eq__` without the lock.  Cache {1: 0, 2: 0}, thread 0 `cache == {1: 0, 2: 5}`,
+    thread 1 `cache.update({1: 5, 2: 5})` scheduled between the comparison of item 1 and of item 2: the comparison
+    answers True although the cache equals the comparand neither before nor after the update -/
+theorem unlocked_eq_sees_mixed_contents :
+    ∃ sch : List Tid, ∃ c,
+      (Cfg.init [(1, 0), (2, 0)] [[Callbacks.Op.eq [(1, 0), (2, 5)]], [Callbacks.Op.upd [(1, 5), (2, 5)]]]).exec
+        Callbacks.badSys sch = some c ∧
+      c.complete = true ∧
+      (c.threads[0]?.map fun t => t.outs) = some [Callbacks.Out.bool true] ∧
+      (runProg (Callbacks.body (.eq [(1, 0), (2, 5)])) [(1, 0), (2, 0)]).2 = .bool false ∧
+      (runProg (Callbacks.body (.eq [(1, 0), (2, 5)])) (Callbacks.setAll [(1, 5), (2, 5)] [(1, 0), (2, 0)])).2
+        = .bool false :=
+  ⟨[0, 0, 0, 1, 1, 1, 0, 0], _, rfl, by decide, by decide, by decide, by decide⟩
+
+/-- seeded C03-15 in the model: the keyword loop of `update` outside the lock region (each keyword item separately
+    locked).  Empty cache, thread 0 `update(k1=1, k2=2)`, thread 1 `update({k1: 7, k2: 9})` scheduled between the two
+    keyword items: the cache ends as {k1: 7, k2: 2}, the outcome of neither sequential order -/
+theorem split_kw_update_not_serializable :
+    ∃ sch : List Tid, ∃ c,
+      (Cfg.init [] [[Callbacks.Op.splitUpd [] [(1, 1), (2, 2)]], [Callbacks.Op.upd [(1, 7), (2, 9)]]]).exec
+        Callbacks.badSys sch = some c ∧
+      c.complete = true ∧ c.owner = none ∧
+      c.shared = [(1, 7), (2, 2)] ∧
+      serialState Callbacks.badSys [] [(0, .splitUpd [] [(1, 1), (2, 2)]), (1, .upd [(1, 7), (2, 9)])] = [(1, 7), (2, 9)] ∧
+      serialState Callbacks.badSys [] [(1, .upd [(1, 7), (2, 9)]), (0, .splitUpd [] [(1, 1), (2, 2)])] = [(1, 1), (2, 2)] :=
+  ⟨[0, 0, 0, 0, 0, 0, 0, 1, 1, 1, 0, 0, 0, 0], _, rfl, by decide, by decide, by decide, by decide, by decide⟩
+
+/-- non-vacuity of `locked_callbacks_serializable`: the same two programs on the code as it is, same schedule prefix:
+    the comparison blocks the writer out and answers False -/
+example : ∃ c, (Cfg.init [(1, 0), (2, 0)] [[Callbacks.Op.eq [(1, 0), (2, 5)]], [Callbacks.Op.upd [(1, 5), (2, 5)]]]).exec
+      Callbacks.goodSys [0, 0, 0, 0, 0, 1, 1, 1] = some c ∧ c.complete = true ∧
+      (c.threads[0]?.map fun t => t.outs) = some [Callbacks.Out.bool false] ∧ c.shared = [(1, 5), (2, 5)] :=
+  ⟨_, rfl, by decide, by decide, by decide⟩
 
 end C03
